@@ -1185,6 +1185,10 @@ func TestVerifWireCases(t *testing.T) {
 							pads = append(pads, p)
 						}
 					}
+					if c.Path == "stream" {
+						// ... and, on a stream, in sizes beyond one read of the stream reader and beyond 64 KiB
+						pads = append(pads, 5000, 70000)
+					}
 				}
 				for _, p := range pads {
 					c.Pad = p
